@@ -1,4 +1,391 @@
 package main
 
-// Environment models (os file system, cbor, pgx) are registered here.
-func initEnvStubs() {}
+// Environment models: cbor (structural snapshot of exported fields), hex.
+
+import (
+	"go/types"
+	"unicode/utf8"
+
+	"golang.org/x/tools/go/ssa"
+)
+
+// ----------------------------------------------------------------------- cbor
+
+// A marshalled record is a byte slice of blobCells cells, each carrying the
+// snapshot it belongs to and its position; a strict prefix (partial write) or
+// any other byte string does not unmarshal (CBOR items are prefix-free).
+const blobCells = 4
+
+type Blob struct {
+	Snap Value
+	T    types.Type
+	ID   int
+}
+
+type BlobCell struct {
+	B *Blob
+	I int
+}
+
+// snapshotExported deep-copies what CBOR sees: exported struct fields,
+// pointees, slice elements and map entries.
+func (ex *Exec) snapshotExported(v Value, t types.Type) Value {
+	switch u := t.Underlying().(type) {
+	case *types.Struct:
+		s, ok := v.(Struct)
+		if !ok {
+			ex.bad("cbor: struct expected, got", v)
+		}
+		out := make(Struct, len(s))
+		for i := range s {
+			f := u.Field(i)
+			if f.Exported() {
+				out[i] = ex.snapshotExported(s[i], f.Type())
+			} else {
+				out[i] = nil // not encoded
+			}
+		}
+		return out
+	case *types.Pointer:
+		p, ok := v.(Ptr)
+		if !ok {
+			ex.bad("cbor: pointer expected, got", v)
+		}
+		if p.P == nil {
+			return Ptr{}
+		}
+		cell := new(Value)
+		*cell = ex.snapshotExported(*p.P, u.Elem())
+		return Ptr{P: cell}
+	case *types.Slice:
+		sl, ok := v.(Slice)
+		if !ok {
+			ex.bad("cbor: slice expected, got", v)
+		}
+		if sl.Rope != nil {
+			c := *sl.Rope
+			return Slice{Rope: &c}
+		}
+		if sl.A == nil {
+			return Slice{Nil: sl.Nil}
+		}
+		a := make([]Value, len(sl.A))
+		for i := range sl.A {
+			a[i] = ex.snapshotExported(sl.A[i], u.Elem())
+		}
+		return Slice{A: a}
+	case *types.Map:
+		m, ok := v.(*MapV)
+		if !ok {
+			ex.bad("cbor: map expected, got", v)
+		}
+		if m == nil {
+			return (*MapV)(nil)
+		}
+		out := &MapV{KT: m.KT, VT: m.VT, idx: make(map[string]int)}
+		for i := range m.keys {
+			out.keys = append(out.keys, ex.snapshotExported(m.keys[i], u.Key()))
+			out.vals = append(out.vals, ex.snapshotExported(m.vals[i], u.Elem()))
+			if h, ok := hashKey(m.keys[i]); ok {
+				out.idx[h] = i
+			}
+		}
+		return out
+	case *types.Array:
+		a := v.(Array)
+		out := make(Array, len(a))
+		for i := range a {
+			out[i] = ex.snapshotExported(a[i], u.Elem())
+		}
+		return out
+	case *types.Basic:
+		return v
+	case *types.Interface:
+		ex.unsupported("cbor: interface-typed field")
+	}
+	ex.unsupported("cbor: field of type %s", t)
+	return nil
+}
+
+// restoreInto decodes a snapshot into an existing destination the way
+// cbor.Unmarshal does: destination structs and maps are reused (exported
+// fields overwritten, unexported ones untouched, map entries added), slices
+// are replaced, nil pointers are allocated.
+func (ex *Exec) restoreInto(dst *Value, snap Value, t types.Type) {
+	switch u := t.Underlying().(type) {
+	case *types.Struct:
+		s := snap.(Struct)
+		d, ok := (*dst).(Struct)
+		if !ok {
+			d = ex.zero(t).(Struct)
+			*dst = d
+		}
+		for i := range s {
+			if u.Field(i).Exported() {
+				ex.restoreInto(&d[i], s[i], u.Field(i).Type())
+			}
+		}
+	case *types.Pointer:
+		sp := snap.(Ptr)
+		if sp.P == nil {
+			*dst = Ptr{}
+			return
+		}
+		dp, _ := (*dst).(Ptr)
+		if dp.P == nil {
+			cell := new(Value)
+			*cell = ex.zero(u.Elem())
+			dp = Ptr{P: cell}
+			*dst = dp
+		}
+		ex.restoreInto(dp.P, *sp.P, u.Elem())
+	case *types.Slice:
+		ss := snap.(Slice)
+		if ss.Rope != nil {
+			c := *ss.Rope
+			*dst = Slice{Rope: &c}
+			return
+		}
+		if ss.A == nil {
+			// CBOR null / empty array
+			if ss.Nil {
+				*dst = Slice{Nil: true}
+			} else {
+				*dst = Slice{A: []Value{}}
+			}
+			return
+		}
+		// elements decode into existing elements where present (maps merge)
+		old, _ := (*dst).(Slice)
+		a := make([]Value, len(ss.A))
+		for i := range ss.A {
+			if i < len(old.A) {
+				a[i] = old.A[i]
+			} else {
+				a[i] = ex.zero(u.Elem())
+			}
+			ex.restoreInto(&a[i], ss.A[i], u.Elem())
+		}
+		*dst = Slice{A: a}
+	case *types.Map:
+		sm := snap.(*MapV)
+		if sm == nil {
+			*dst = (*MapV)(nil)
+			return
+		}
+		dm, _ := (*dst).(*MapV)
+		if dm == nil {
+			dm = &MapV{KT: sm.KT, VT: sm.VT, idx: make(map[string]int)}
+			*dst = dm
+		}
+		for i := range sm.keys {
+			var v Value = ex.zero(u.Elem())
+			ex.restoreInto(&v, sm.vals[i], u.Elem())
+			ex.mapUpdate(dm, sm.keys[i], v)
+		}
+	case *types.Array:
+		sa := snap.(Array)
+		d := (*dst).(Array)
+		for i := range sa {
+			ex.restoreInto(&d[i], sa[i], u.Elem())
+		}
+	default:
+		*dst = snap
+	}
+}
+
+func (ex *Exec) blobOf(sl Slice) *Blob {
+	if sl.Rope != nil || len(sl.A) != blobCells {
+		return nil
+	}
+	var b *Blob
+	for i, c := range sl.A {
+		bc, ok := c.(BlobCell)
+		if !ok || bc.I != i || (b != nil && bc.B != b) {
+			return nil
+		}
+		b = bc.B
+	}
+	return b
+}
+
+func initEnvStubs() {
+	reg := func(name string, f intrinsicFn) { namedIntrinsics[name] = f }
+	reg("github.com/fxamacker/cbor/v2.Marshal", func(ex *Exec, fn *ssa.Function, args []Value, caller *Frame) Value {
+		iv, ok := args[0].(Iface)
+		if !ok || iv.T == nil {
+			ex.unsupported("cbor.Marshal of nil")
+		}
+		ex.chunkID++
+		b := &Blob{Snap: ex.snapshotExported(iv.V, iv.T), T: iv.T, ID: ex.chunkID}
+		a := make([]Value, blobCells)
+		for i := range a {
+			a[i] = BlobCell{B: b, I: i}
+		}
+		return Tuple{Slice{A: a}, Iface{}}
+	})
+	reg("github.com/fxamacker/cbor/v2.Unmarshal", func(ex *Exec, fn *ssa.Function, args []Value, caller *Frame) Value {
+		sl, _ := args[0].(Slice)
+		b := ex.blobOf(sl)
+		if b == nil {
+			return ex.mkError(ex.strLit("cbor: cannot decode (truncated or foreign data)"))
+		}
+		iv, ok := args[1].(Iface)
+		if !ok || iv.T == nil || !types.Identical(iv.T, b.T) {
+			ex.unsupported("cbor.Unmarshal into a different type")
+		}
+		// text strings are validated on decode
+		if !ex.branch(ex.snapshotStringsValid(b.Snap)) {
+			return ex.mkError(ex.strLit("cbor: invalid UTF-8 string"))
+		}
+		var dst Value = iv.V
+		ex.restoreInto(&dst, b.Snap, b.T)
+		return Iface{}
+	})
+	hexOf := func(ex *Exec, n *Term) *Term {
+		ts := ex.ts
+		if n.IsConst() {
+			return ts.Const(8, uint64("0123456789abcdef"[n.K&15]))
+		}
+		return ts.Ite(ts.Ult(n, ts.Const(8, 10)), ts.Add(n, ts.Const(8, '0')), ts.Add(n, ts.Const(8, 'a'-10)))
+	}
+	reg("encoding/hex.EncodeToString", func(ex *Exec, fn *ssa.Function, args []Value, caller *Frame) Value {
+		sl := args[0].(Slice)
+		if sl.Rope != nil {
+			ex.unsupported("hex of opaque content")
+		}
+		if len(sl.A) == 0 {
+			return Str{}
+		}
+		out := make([]*Term, 0, 2*len(sl.A))
+		for _, e := range sl.A {
+			b, ok := e.(*Term)
+			if !ok {
+				ex.unsupported("hex of non-byte element")
+			}
+			hi := ex.ts.BinBV(OLShr, b, ex.ts.Const(8, 4))
+			lo := ex.ts.BinBV(OAnd, b, ex.ts.Const(8, 15))
+			out = append(out, hexOf(ex, hi), hexOf(ex, lo))
+		}
+		return Str{Segs: []Seg{{B: out}}}
+	})
+}
+
+// ---------------------------------------------------------------------- UTF-8
+
+// utf8Valid returns the Boolean term "these bytes are valid UTF-8" (DFA over
+// the byte terms, conditions accumulated per state; no forking).
+func (ex *Exec) utf8Valid(bs []*Term) *Term {
+	ts := ex.ts
+	allConc := true
+	for _, b := range bs {
+		if !b.IsConst() {
+			allConc = false
+			break
+		}
+	}
+	if allConc {
+		buf := make([]byte, len(bs))
+		for i, b := range bs {
+			buf[i] = byte(b.K)
+		}
+		return ts.Bool(utf8ValidBytes(buf))
+	}
+	const (
+		s0 = iota
+		c1
+		c2
+		c2e0
+		c2ed
+		c3
+		c3f0
+		c3f4
+		nStates
+	)
+	in := func(b *Term, lo, hi uint64) *Term {
+		return ts.And(ts.Ule(ts.Const(8, lo), b), ts.Ule(b, ts.Const(8, hi)))
+	}
+	cur := make([]*Term, nStates)
+	for i := range cur {
+		cur[i] = ts.False()
+	}
+	cur[s0] = ts.True()
+	for _, b := range bs {
+		next := make([]*Term, nStates)
+		for i := range next {
+			next[i] = ts.False()
+		}
+		add := func(to int, c *Term) { next[to] = ts.Or(next[to], c) }
+		// from s0
+		add(s0, ts.And(cur[s0], ts.Ult(b, ts.Const(8, 0x80))))
+		add(c1, ts.And(cur[s0], in(b, 0xC2, 0xDF)))
+		add(c2e0, ts.And(cur[s0], ts.Eq(b, ts.Const(8, 0xE0))))
+		add(c2, ts.And(cur[s0], ts.Or(in(b, 0xE1, 0xEC), in(b, 0xEE, 0xEF))))
+		add(c2ed, ts.And(cur[s0], ts.Eq(b, ts.Const(8, 0xED))))
+		add(c3f0, ts.And(cur[s0], ts.Eq(b, ts.Const(8, 0xF0))))
+		add(c3, ts.And(cur[s0], in(b, 0xF1, 0xF3)))
+		add(c3f4, ts.And(cur[s0], ts.Eq(b, ts.Const(8, 0xF4))))
+		cont := in(b, 0x80, 0xBF)
+		add(s0, ts.And(cur[c1], cont))
+		add(c1, ts.And(cur[c2], cont))
+		add(c1, ts.And(cur[c2e0], in(b, 0xA0, 0xBF)))
+		add(c1, ts.And(cur[c2ed], in(b, 0x80, 0x9F)))
+		add(c2, ts.And(cur[c3], cont))
+		add(c2, ts.And(cur[c3f0], in(b, 0x90, 0xBF)))
+		add(c2, ts.And(cur[c3f4], in(b, 0x80, 0x8F)))
+		cur = next
+	}
+	return cur[s0]
+}
+
+func utf8ValidBytes(b []byte) bool {
+	return utf8.Valid(b)
+}
+
+// snapshotStringsValid: every string CBOR would decode as a text string is
+// valid UTF-8 (the library rejects invalid UTF-8 on decode).
+func (ex *Exec) snapshotStringsValid(v Value) *Term {
+	ts := ex.ts
+	ok := ts.True()
+	var walk func(v Value)
+	walk = func(v Value) {
+		switch x := v.(type) {
+		case Str:
+			if x.HasOpaque() {
+				// opaque content is declared text; only its byte segments matter
+				for _, g := range x.Segs {
+					if !g.opaque() {
+						ok = ts.And(ok, ex.utf8Valid(g.B))
+					}
+				}
+				return
+			}
+			ok = ts.And(ok, ex.utf8Valid(flatBytes(x)))
+		case Struct:
+			for _, f := range x {
+				walk(f)
+			}
+		case Array:
+			for _, f := range x {
+				walk(f)
+			}
+		case Ptr:
+			if x.P != nil {
+				walk(*x.P)
+			}
+		case Slice:
+			for _, e := range x.A {
+				walk(e)
+			}
+		case *MapV:
+			if x != nil {
+				for i := range x.keys {
+					walk(x.keys[i])
+					walk(x.vals[i])
+				}
+			}
+		}
+	}
+	walk(v)
+	return ok
+}
